@@ -110,13 +110,22 @@ pub fn drive(log: &mut Log) {
         if !log.mine(case) {
             continue;
         }
-        let mut text = body;
-        text.push(b'$');
+        // sentinel '$', '#' or byte 0 (always the smallest symbol of the alphabet)
+        let sent = [b'$', b'#', 0u8][(case % 3) as usize];
+        let mut text: Vec<u8> = body.iter().map(|&c| if c == b'$' { sent } else { c }).collect();
+        text.push(sent);
         let k = [1u32, 2, 3, 5][(case % 4) as usize];
-        let s = [0usize, 2, 3, 1][((case / 4) % 4) as usize];
+        let s = [0usize, 2, 3, 4, 5, 6, 7, 8, 1][((case / 3) % 9) as usize];
         let own = ((case / 16) % 3) as u8;
-        let alpha: &[u8] = if case % 5 == 0 { b"$ACGT" } else { b"AC" };
-        run_one(log, "ex", &text, alpha, k, s, own, &pats);
+        let alpha: Vec<u8> = match sent {
+            b'$' => if case % 5 == 0 { b"$ACGT".to_vec() } else { b"AC".to_vec() }, // '$' implicit in Occ::new
+            b'#' => if case % 5 == 0 { b"#ACGT".to_vec() } else { b"#AC".to_vec() },
+            _ => vec![0, b'A', b'C'],
+        };
+        if sent != b'$' && s >= 2 {
+            log.oblige("sentinel_not_dollar_sampled_sa");
+        }
+        run_one(log, "ex", &text, &alpha, k, s, own, &pats);
     }
     log.oblige("exhaustive_small");
 
@@ -149,6 +158,7 @@ pub fn drive(log: &mut Log) {
                 4 => (b"ACGTN".to_vec(), b'a'),
                 _ => (vec![b'%', 200, 255], 100),
             };
+            let sent = if shape == 5 { b'$' } else { [b'$', b'#', 0u8][((rep + ci as u64) % 3) as usize] };
             let n = if k > 64 { rng.range(140, 500) } else { rng.range(2, 400) } as usize;
             let mut text = match shape {
                 1 => {
@@ -162,25 +172,25 @@ pub fn drive(log: &mut Log) {
             if multi {
                 for _ in 0..rng.range(1, 6) {
                     let p = rng.below((n - 1) as u64) as usize;
-                    text[p] = b'$';
+                    text[p] = sent;
                 }
             }
-            text.push(b'$');
+            text.push(sent);
             let mut alpha = body_alpha.clone();
             alpha.push(absent);
-            if rng.coin() {
-                alpha.push(b'$');
+            if sent != b'$' || rng.coin() {
+                alpha.push(sent); // ('$' may stay implicit: Occ::new adds it)
             }
             // patterns
             let mut pats: Vec<Vec<u8>> = vec![];
-            let sub = |rng: &mut Rng, text: &[u8]| -> Vec<u8> {
+            let sub = move |rng: &mut Rng, text: &[u8]| -> Vec<u8> {
                 // a sentinel-free substring of the text (possibly empty if the text has none)
                 for _ in 0..20 {
                     let a = rng.below(text.len() as u64) as usize;
                     let len = rng.range(1, 30) as usize;
                     let b = (a + len).min(text.len());
                     let w = &text[a..b];
-                    if !w.is_empty() && !w.contains(&b'$') {
+                    if !w.is_empty() && !w.contains(&sent) {
                         return w.to_vec();
                     }
                 }
@@ -241,6 +251,9 @@ pub fn drive(log: &mut Log) {
             }
             if s > 0 {
                 log.oblige("sampled_sa");
+                if sent != b'$' {
+                    log.oblige("sentinel_not_dollar_sampled_sa");
+                }
             }
             if k > 64 && (n - 1) / (k as usize) >= 1 {
                 log.oblige("occ_rate_gt64");
@@ -249,6 +262,44 @@ pub fn drive(log: &mut Log) {
                 0 => log.oblige("own_borrowed"),
                 1 => log.oblige("own_owned"),
                 _ => log.oblige("own_arc"),
+            }
+        }
+    }
+
+    // (c) small texts: every sentinel x every SA sampling rate 2..=8 (rows whose LF walk has to cross
+    //     the row of suffix 0 -- the BWT symbol there is the sentinel -- before it meets a sampled row)
+    for rep in 0..log.opts.n(2, 6) {
+        for &sent in &[b'$', b'#', 0u8] {
+            for s in 2..=8usize {
+                case += 1;
+                if !log.mine(case) {
+                    continue;
+                }
+                let mut rng = Rng::new(seed, 14, case);
+                let n = rng.range(2, 40) as usize;
+                let body_alpha: &[u8] = if rep % 2 == 0 { b"ACGT" } else { b"AC" };
+                let mut text = rng.seq(n - 1, body_alpha);
+                if rep % 3 == 2 && n > 4 {
+                    let p = rng.below((n - 1) as u64) as usize;
+                    text[p] = sent;
+                }
+                text.push(sent);
+                let mut alpha = body_alpha.to_vec();
+                alpha.push(sent);
+                let mut pats: Vec<Vec<u8>> = body_alpha.iter().map(|&c| vec![c]).collect();
+                for _ in 0..6 {
+                    let a = rng.below(n as u64) as usize;
+                    let l = rng.range(1, 6) as usize;
+                    let w: Vec<u8> = text[a..].iter().take(l).take_while(|&&c| c != sent).cloned().collect();
+                    if !w.is_empty() {
+                        pats.push(w);
+                    }
+                }
+                let k = [1u32, 3, 2][(case % 3) as usize];
+                run_one(log, "sm", &text, &alpha, k, s, (case % 3) as u8, &pats);
+                if sent != b'$' {
+                    log.oblige("sentinel_not_dollar_sampled_sa");
+                }
             }
         }
     }
